@@ -28,7 +28,8 @@ class C10(object):
                    'a horizon assigned to the solver after ParseString is not "the horizon" (picked up on next parse)']
     required_counters = ('length.judged', 'exo.judged', 'ic.judged', 'lag.judged', 'time.judged', 'reject.judged',
                          'model.judged', 'solver_reused.cases', 'ic_on_default_time.judged',
-                         'solver_horizon_overrides_line.cases')
+                         'solver_horizon_overrides_line.cases', 'horizon_assigned_after_parse.cases',
+                         'exo_on_parameter.judged')
 
     def n_cases(self, tier):
         return 320 if tier == 'quick' else 30000
@@ -62,7 +63,10 @@ class C10(object):
             for e in other['exos']:
                 pass
             text = G.render(dict(spec, tol=1e-9), with_params=False) + '\nMaxTime = %d\nErr_Tolerance = 1e-9' % other['maxtime']
-        case = {'kind': 'solve', 'spec': spec, 'text': text,
+        late = None
+        if via == 'line' and maxtime >= 2 and rng.random() < 0.25:
+            late = rng.randint(0, maxtime - 1)
+        case = {'kind': 'solve', 'spec': spec, 'text': text, 'late_horizon': late,
                 'via': via, 'reduction': rng.random() < 0.5, 'earlier': None}
         if via == 'line' and rng.random() < 0.35:
             # the same solver object has already parsed and solved another block with another horizon
@@ -74,7 +78,15 @@ class C10(object):
         T = rng.randint(1, 25)
         form = rng.choice(['list', 'tuple', 'str', 'str_expr'])
         g = [float(rng.randint(0, 40)) for _ in range(T + 1 + rng.randint(0, 5))]
-        return {'kind': 'model', 'maxtime': T, 'form': form, 'g': g,
+        n = T + 1 + rng.randint(0, 3)
+        params = {}
+        if rng.random() < 0.5:
+            params['HH|AlphaIncome'] = [round(rng.uniform(0.5, 0.8), 3) for _ in range(n)]
+        if rng.random() < 0.5:
+            params['TF|TaxRate'] = [round(rng.uniform(0.1, 0.3), 3) for _ in range(n)]
+        if rng.random() < 0.3:
+            params['HH|AlphaFin'] = [round(rng.uniform(0.2, 0.5), 3) for _ in range(n)]
+        return {'kind': 'model', 'maxtime': T, 'form': form, 'g': g, 'param_paths': params,
                 'ics': {'HH|F': G.nice(rng, 0, 50), 'GOV|F': -G.nice(rng, 0, 50)} if rng.random() < 0.6 else {},
                 'ic_aftertax': G.nice(rng, 0, 30) if rng.random() < 0.5 else None,
                 'builder': rng.choice(['SIM', 'SIMEX1'])}
@@ -164,17 +176,29 @@ class C10(object):
             except ValueError:
                 pass
             rec.count('solver_reused.cases')
+        late = case.get('late_horizon')
         try:
             with contextlib.redirect_stdout(io.StringIO()):
                 solver.ParseString(case['text'])
+                if late is not None:
+                    solver.MaxTime = late      # assigned AFTER parsing: whatever it means, the result must be coherent
                 solver.SolveEquation()
         except ValueError as e:
             return {'verdict': 'notjudged', 'shape': 'solve|' + type(e).__name__, 'obs': {'err': str(e)[:200]}}
-        except (NameError, KeyError, AssertionError) as e:
+        except (NameError, KeyError, AssertionError, IndexError) as e:
             rec.violate('well_formed_block_fails', {'err': repr(e)[:300], 'text': case['text'],
                                                     'after_earlier_block': bool(case.get('earlier'))})
             return {'verdict': 'violated', 'shape': 'solve', 'counters': rec.counters, 'violations': rec.violations}
         ts = solver.TimeSeries
+        if late is not None:
+            rec.count('horizon_assigned_after_parse.cases')
+            lens = set(len(v) for v in ts.values())
+            if len(lens) != 1 or (lens.pop() - 1) not in (T, late):
+                rec.violate('series_lengths_incoherent', {'lengths': {n: len(v) for n, v in list(ts.items())[:8]},
+                                                          'block_horizon': T, 'assigned_after_parse': late})
+                return {'verdict': 'violated', 'shape': 'solve|late_horizon', 'counters': rec.counters,
+                        'violations': rec.violations}
+            T = len(ts['k']) - 1
         self.judge_series(rec, ts, spec, T, case)
         nontrivial = bool(spec['exos'] or spec['ics'])
         return {'verdict': 'violated' if rec.violations else 'held', 'nontrivial': nontrivial,
@@ -286,6 +310,9 @@ class C10(object):
         if case['form'] == 'str_expr':
             pass
         mod.AddExogenous('GOV', 'DEM_GOOD', val)
+        for key, pth in case.get('param_paths', {}).items():
+            sec, var = key.split('|')
+            mod.AddExogenous(sec, var, list(pth))     # a parameter given as a time-varying exogenous path
         for key, v in case['ics'].items():
             sec, var = key.split('|')
             mod.AddInitialCondition(sec, var, v)
@@ -309,6 +336,13 @@ class C10(object):
         if list(ts['GOV__DEM_GOOD']) != g[:T + 1]:
             rec.violate('exogenous_not_verbatim', {'var': 'GOV__DEM_GOOD', 'form': case['form'],
                                                    'got': list(ts['GOV__DEM_GOOD'])[:8], 'expected': g[:8]})
+        for key, pth in case.get('param_paths', {}).items():
+            sec, var = key.split('|')
+            rec.count('exo.judged')
+            rec.count('exo_on_parameter.judged')
+            if list(ts[sec + '__' + var]) != [float(x) for x in pth[:T + 1]]:
+                rec.violate('exogenous_not_verbatim', {'var': key, 'got': list(ts[sec + '__' + var])[:6],
+                                                       'expected': pth[:6], 'note': 'parameter supplied as exogenous path'})
         for key, v in case['ics'].items():
             sec, var = key.split('|')
             rec.count('ic.judged')
